@@ -853,3 +853,167 @@ def c12_parse_total(inputs, doc):
                 return dict(buffer=b.hex(), backend=backend, last_received_position=g.last_received_position,
                             problem='an accepted KEEPALIVE cannot be serialised again (%s: %s): the echo kills the sender' % (type(e).__name__, e))
     return None
+
+
+# --------------------------------------------------------------------------- C18: extension codecs against a native wire oracle
+
+def _b(v, default=b''):
+    return bytes(v) if isinstance(v, (bytes, bytearray)) else default
+
+
+def _tag_cases(inputs):
+    given = [_b(inputs[k]) for k in sorted(inputs) if k.startswith('tag') and isinstance(inputs[k], (bytes, bytearray))]
+    cases = [given] if given else []
+    x = _b(inputs.get('tag'), None) if 'tag' in inputs else None
+    if x is not None:
+        cases += [[x], [b'a', x], [x, b'']]
+    cases += [[], [b''], [b'route.path', b''], [b'', b''], [b'', b'a'], [b'a'], [b'a', b'bc', b'def'], [b'x' * 255], [b'x' * 256],
+              [b'ok', b'y' * 256], [b'\x00'], [b'\x01\x02', b'\x00']]
+    return cases
+
+
+def c18_tags(inputs, doc):
+    from rsocket.exceptions import RSocketError
+    from rsocket.extensions.routing import RoutingMetadata
+    for tags in _tag_cases(inputs):
+        want = b''.join(bytes([len(t)]) + t for t in tags) if all(len(t) <= 255 for t in tags) else None
+        item = RoutingMetadata(list(tags))
+        try:
+            got = bytes(item.serialize())
+        except RSocketError:
+            if want is not None:
+                return dict(tags=[t.hex() for t in tags], observed='rejected', expected=want.hex())
+            continue
+        except Exception as e:
+            return dict(tags=[t.hex() for t in tags], observed=repr(e), expected='bytes or RSocketError')
+        if want is None:
+            return dict(tags=[t.hex()[:40] for t in tags], observed='encoded %d bytes' % len(got), expected='rejected (tag longer than 255)')
+        if got != want:
+            return dict(tags=[t.hex() for t in tags], observed=got.hex(), expected=want.hex())
+        back = RoutingMetadata()
+        back.parse(want)
+        if [bytes(t) for t in back.tags] != list(tags):
+            return dict(clause='decode(encode(tags)) == tags', tags=[t.hex() for t in tags], decoded=[bytes(t).hex() for t in back.tags])
+        again = bytes(back.serialize())
+        if again != want:
+            return dict(clause='encode(decode(bytes)) == bytes', wire=want.hex(), observed=again.hex())
+        # an item that encoded or decoded something before encodes its CURRENT tags
+        item.tags = [b'other'] + list(tags[:1])
+        want2 = b''.join(bytes([len(t)]) + t for t in item.tags)
+        if bytes(item.serialize()) != want2:
+            return dict(clause='encoding follows the current tags', tags=[t.hex() for t in item.tags], expected=want2.hex())
+    return None
+
+
+def _names(inputs):
+    out = [_b(inputs[k]) for k in ('custom', 'custom2') if isinstance(inputs.get(k), (bytes, bytearray))]
+    out += [b'a', b'x' * 2, b'application/x.custom', b'n' * 127, b'n' * 128, b'n' * 129, b'n' * 200]
+    return [n for n in out if len(n) >= 1]
+
+
+def c18_mime_header(inputs, doc):
+    from rsocket.exceptions import RSocketError
+    from rsocket.extensions.mimetypes import WellKnownMimeTypes
+    from rsocket.helpers import serialize_well_known_encoding, parse_well_known_encoding
+    members = [m for m in WellKnownMimeTypes if 0 <= m.value.id <= 127]       # the two negative ids are in-memory sentinels
+    known = {bytes(m.value.name): m.value.id for m in members}
+    if len(set(known.values())) != len(members) or len(known) != len(members):
+        return dict(clause='ids and names map one-to-one', names=len(known), ids=len(set(known.values())))
+    for name, wid in known.items():
+        got = bytes(serialize_well_known_encoding(name, WellKnownMimeTypes.get_by_name))
+        if got != bytes([0x80 | wid]):
+            return dict(name=name.decode(), observed=got.hex(), expected=bytes([0x80 | wid]).hex())
+        back, off = parse_well_known_encoding(got + b'rest', WellKnownMimeTypes.require_by_id)
+        if bytes(back) != name or off != 1:
+            return dict(clause='well-known id decodes to its name', wire=got.hex(), observed=[bytes(back).decode('latin1'), off])
+    for name in _names(inputs):
+        if name in known:
+            continue
+        want = bytes([len(name) - 1]) + name if len(name) <= 128 else None
+        try:
+            got = bytes(serialize_well_known_encoding(name, WellKnownMimeTypes.get_by_name))
+        except RSocketError:
+            if want is not None:
+                return dict(name=name.hex(), observed='rejected', expected=want.hex())
+            continue
+        except Exception as e:
+            return dict(name=name.hex()[:60], observed=repr(e), expected='bytes or RSocketError')
+        if want is None:
+            return dict(name_length=len(name), observed=got[:8].hex() + '...', expected='rejected (name longer than 128)')
+        if got != want:
+            return dict(name=name.hex(), observed=got.hex(), expected=want.hex())
+        back, off = parse_well_known_encoding(want + b'rest', WellKnownMimeTypes.require_by_id)
+        if bytes(back) != name or off != len(want):
+            return dict(clause='custom header round trip', wire=want.hex(), observed=[bytes(back).hex(), off])
+    return None
+
+
+def c18_auth(inputs, doc):
+    from rsocket.extensions.authentication import AuthenticationSimple, AuthenticationBearer
+    from rsocket.extensions.authentication_content import AuthenticationContent
+    cases = []
+    if isinstance(inputs.get('username'), (bytes, bytearray)) or isinstance(inputs.get('password'), (bytes, bytearray)):
+        cases.append((_b(inputs.get('username')), _b(inputs.get('password'))))
+    cases += [(b'', b''), (b'u', b''), (b'', b'p'), (b'user', b'pass'), (b'u' * 255, b'p'), (b'u' * 256, b'p'), (b'u' * 65535, b'pw')]
+    for user, pw in cases:
+        if len(user) > 65535:
+            continue
+        want = len(user).to_bytes(2, 'big') + user + pw
+        a = AuthenticationSimple(user, pw)
+        got = bytes(a.serialize())
+        if got != want:
+            return dict(username=user.hex()[:60], password=pw.hex()[:60], observed=got[:40].hex(), expected=want[:40].hex())
+        b = AuthenticationSimple()
+        b.parse(want)
+        if bytes(b.username) != user or bytes(b.password) != pw:
+            return dict(clause='simple round trip', username_length=len(user), observed=[len(b.username), len(b.password)])
+        full = bytes(AuthenticationContent(a).serialize())
+        if full != b'\x80' + want:
+            return dict(clause='content header 0x80', observed=full[:40].hex(), expected=(b'\x80' + want)[:40].hex())
+        c = AuthenticationContent()
+        c.parse(b'\x80' + want)
+        if type(c.authentication).__name__ != 'AuthenticationSimple' or bytes(c.authentication.username) != user \
+                or bytes(c.authentication.password) != pw or bytes(c.serialize()) != b'\x80' + want:
+            return dict(clause='content decodes to simple and re-encodes to the same bytes', username_length=len(user))
+    toks = ([_b(inputs['token'])] if isinstance(inputs.get('token'), (bytes, bytearray)) else []) + [b'', b't', b'token' * 50]
+    for tok in toks:
+        a = AuthenticationBearer(tok)
+        if bytes(a.serialize()) != tok:
+            return dict(token=tok.hex()[:60], observed=bytes(a.serialize()).hex()[:60])
+        full = bytes(AuthenticationContent(a).serialize())
+        if full != b'\x81' + tok:
+            return dict(clause='content header 0x81', observed=full[:40].hex())
+        c = AuthenticationContent()
+        c.parse(b'\x81' + tok)
+        if type(c.authentication).__name__ != 'AuthenticationBearer' or bytes(c.authentication.token) != tok \
+                or bytes(c.serialize()) != b'\x81' + tok:
+            return dict(clause='content decodes to bearer and re-encodes to the same bytes', token=tok.hex()[:60])
+    return None
+
+
+def c18_composite(inputs, doc):
+    from rsocket.extensions.composite_metadata import CompositeMetadata
+    from rsocket.extensions.helpers import composite, metadata_item, route
+    from rsocket.extensions.mimetypes import WellKnownMimeTypes
+    names = [n for n in _names(inputs) if len(n) <= 128][:4]
+    bodies = [(_b(inputs.get('body1')), _b(inputs.get('body2'))), (b'', b''), (b'abc', b'{}'), (b'\x00' * 300, b'z')]
+    for name in names:
+        for b1, b2 in bodies:
+            for tag in (b'', b'r', b'route.to.somewhere'):
+                encs = [bytes([len(name) - 1]) + name + len(b1).to_bytes(3, 'big') + b1,
+                        b'\x85' + len(b2).to_bytes(3, 'big') + b2,
+                        b'\xfe' + (1 + len(tag)).to_bytes(3, 'big') + bytes([len(tag)]) + tag]
+                for k in range(4):
+                    items = [metadata_item(b1, name), metadata_item(b2, WellKnownMimeTypes.APPLICATION_JSON), route(tag)][:k]
+                    want = b''.join(encs[:k])
+                    got = bytes(composite(*items))
+                    if got != want:
+                        return dict(entries=k, name=name.hex(), observed=got[:80].hex(), expected=want[:80].hex())
+                    cm = CompositeMetadata()
+                    cm.parse(want)
+                    if len(cm.items) != k:
+                        return dict(clause='decode yields one item per entry', entries=k, decoded=len(cm.items), wire=want[:80].hex())
+                    again = bytes(cm.serialize())
+                    if again != want:
+                        return dict(clause='encode(decode(bytes)) == bytes', wire=want[:80].hex(), observed=again[:80].hex())
+    return None
